@@ -85,13 +85,15 @@ func (s *JavaAPIListener) EnterAnnotation(ctx *parser.AnnotationContext) {
 		isSpringRestController = true
 	}
 
-	if !isSpringRestController {
+	if !hasEnterClass {
+		// an annotation in front of the class declaration can give the base path; it never starts an API entry.
+		// The base path is taken before the controller annotation is required: @RequestMapping may be written
+		// above @RestController. It is only used by methods of a class that turned out to be a controller.
+		buildBaseApiUrlString(annotationName, ctx)
 		return
 	}
 
-	if !hasEnterClass {
-		// an annotation in front of the class declaration can give the base path; it never starts an API entry
-		buildBaseApiUrlString(annotationName, ctx)
+	if !isSpringRestController {
 		return
 	}
 
